@@ -340,13 +340,16 @@ where
         let request_hash = response.request_type().hash();
 
         // check whether we are (still) waiting on response to this request
-        let Some(_) = self.outstanding_requests.remove(&request_hash) else {
+        // NOTE: The request only counts as answered once the response passed validation.
+        // Otherwise, any peer could cancel it by answering with garbage before an honest peer does.
+        if !self.outstanding_requests.contains_key(&request_hash) {
             warn!("received repair response for unknown request {response:?}");
             return;
-        };
+        }
 
         match response {
             RepairResponse::Nack(req_type) => {
+                self.outstanding_requests.remove(&request_hash);
                 debug!("received NACK for repair request {req_type:?}, retrying immediately");
                 if let Err(err) = self.send_request(req_type).await {
                     warn!("retrying NACKed repair request failed: {err}");
@@ -368,6 +371,8 @@ where
                     warn!("repair response (LastSliceRoot) with invalid proof");
                     return;
                 }
+
+                self.outstanding_requests.remove(&request_hash);
 
                 // store slice Merkle root
                 self.slice_roots
@@ -394,6 +399,8 @@ where
                     warn!("repair response (SliceRoot) with invalid proof");
                     return;
                 }
+
+                self.outstanding_requests.remove(&request_hash);
 
                 // store slice Merkle root
                 self.slice_roots.insert((block_id.clone(), slice), root);
@@ -435,6 +442,7 @@ where
                     warn!("repair response (Shred) with invalid Merkle proof or signature");
                     return;
                 };
+                self.outstanding_requests.remove(&request_hash);
 
                 // store shred
                 let res = self
